@@ -52,6 +52,29 @@ STEER6 = {
  "C20": "the decrease-liquidity quote, rounding of try_get_amount_delta_b, transfer-fee helpers (apply / reverse), the negative-tick price path, tick-array start index helpers, slippage on exact-out quotes, quotes that run into the protocol price bounds",
 }
 
+STEER7 = {
+ "C01": "two or more positions sharing ticks when one of them is closed out, swaps stopped by a price limit (partial fills), fee updates of positions that are out of range, the order of protocol-fee collection relative to swaps, collect_fees_v2",
+ "C02": "the token-B price function on removal (exact-out), rounding of the multiply-shift helpers, the decision between a full and a partial step when the amounts tie, a fee rate of zero, a target equal to a tick price",
+ "C03": "two_hop_swap_v2 thresholds in exact-out, the tick index stored when a swap ends exactly on a tick, limits equal to the protocol bounds, the v1 default limit, amounts of one unit",
+ "C04": "authorities of collect_protocol_fees(_v2), set_reward_emissions(_v2) per reward index, initialize_reward(_v2), token-badge creation / deletion, close_bundled_position and delete_position_bundle, open_bundled_position",
+ "C05": "reposition when the old and the new range share a tick, a tick fully de-initialised and re-initialised within one instruction, positions with identical ranges, crossing a tick that sits on a tick-array boundary, the current tick exactly on a lower bound",
+ "C06": "wrapping of protocol_fee_owed, a step with zero curve input but a non-zero fee, an exact-out swap stopped at its limit, adaptive fees together with the protocol share, the v1 protocol-fee collection",
+ "C07": "growth inside when the current tick equals the lower bound exactly, the checkpoint written by collect_fees, an update of a position with zero liquidity, the overflow rule for token B, ticks that are de-initialised and later re-initialised",
+ "C08": "netting in reposition, minima on decrease_liquidity_v2, the price bounds of by-token-amounts, a price exactly on the upper bound, exact amounts that need no rounding",
+ "C09": "anything in tick_math.rs that the earlier changes did not touch: a bit of one magic constant, the most-significant-bit computation, the precision loop, sign handling",
+ "C10": "index hand-over inside the tick sequence, the search when the current tick is the last slot of an array, the dynamic array's search starting from an uninitialised slot, proxies for uninitialised arrays, validation of supplied arrays in v1 versus v2",
+ "C11": "order of settlement when the emission rate changes, several operations within the same second, partial payment from an under-funded vault followed by a refill, rewards initialised out of index order, huge rates",
+ "C12": "the frozen-account check of the Pinocchio decrease handlers, the reward slots written back to the position, the liquidity written to the pool view, the tick-array loader's discriminator / owner checks, the events the Pinocchio handlers emit",
+ "C13": "de-initialising the last initialised tick of a dynamic array, modifying an already initialised tick, ticks that are not multiples of the spacing, the start-index check",
+ "C14": "exact-out swaps on adaptive pools, elapsed time exactly equal to the filter or the decay period, rounding of the decayed reference, the variables after a swap that does not move the price, the major-swap timestamp",
+ "C15": "vault / mint cross-wiring between the two pools of a two-hop, the oracle of another pool in a two-hop, the position token account's mint in the collect instructions, tick arrays of a sibling pool through the Anchor loader, transfer-hook remaining accounts",
+ "C16": "two_hop_swap_v2 with fees on the input, intermediate and output mint, thresholds on fee-adjusted amounts, the Pinocchio included-amount with the cap binding, minima of decrease_liquidity_v2",
+ "C17": "the exact-in threshold of v1, the order of the two Traded events, which pool's update is written first, precedence of errors when both legs would fail",
+ "C18": "tick validation at open (usable ticks, full-range-only pools), lock_position on an empty position, closing with owed fees, delete_position_bundle with an open position, reset_position_range to an invalid range",
+ "C19": "bounds in set_fee_rate_by_delegated_fee_authority, set_default_base_fee_rate, initialize_fee_tier and initialize_adaptive_fee_tier, the specific extension list of the mint admission function",
+ "C20": "the SDK's tick-array traversal in the shifted state, its adaptive-fee timestamps and major-swap rule, exact-out partial fills, liquidity quotes at the range bounds, the epoch used for transfer fees",
+}
+
 def main():
     tag, outdir = sys.argv[1], sys.argv[2]
     os.makedirs(outdir, exist_ok=True)
@@ -74,7 +97,7 @@ def main():
         text = (f"{pid} — {p['title']}\n\nStatement: {p['statement']}\n\nQuantified over: {p['quantifier']['text']}\n\n"
                 f"Why the existing tests cannot settle it: {p['why_tests_cant']}\n\nWhere it lives: files {', '.join(p['anchors']['files'])}; "
                 f"mechanisms: " + "; ".join(f"{m['name']} ({m['where']})" for m in p['anchors']['mechanism']))
-        st = STEER5 if tag.startswith("seed5") else STEER6 if tag.startswith("seed6") else None
+        st = STEER5 if tag.startswith("seed5") else STEER6 if tag.startswith("seed6") else STEER7 if tag.startswith("seed7") else None
         steer = f"Preferably look at parts of the behaviour that none of these touched, for instance: {st[pid]}." if st else ""
         out = (brief.replace("{dir}", f"/tmp/{tag}_{pid}").replace("{property}", text).replace("{used}", "\n".join(used) or "(none)")
                .replace("{steer}", steer).replace("{id}", pid))
